@@ -943,6 +943,12 @@ def probe_processing(ctx, rng, n):
         try:
             pre = getattr(s, pre_cn)(**{p: build(v) for p, v in pre_kw.items()})
             pro = getattr(s, cn)(**{p: build(v) for p, v in kw.items()})
+            used_before = (k % 3 == 0)
+            if used_before:
+                # the settings were USED before being saved (on a window longer than 2**15 samples, which raises the stored FFT length):
+                # everything a later run depends on must be in the file
+                with quiet():
+                    hvsrpy.process(synthetic_records(np.random.default_rng(recs_seed + 1), n=33001), pro)
             pre.save(fn1)
             oio.write_settings_object_to_file(pro, fn2)
             if k % 2:
@@ -965,7 +971,8 @@ def probe_processing(ctx, rng, n):
                 x.shape == y.shape and x.tobytes() == y.tobytes() for x, y in zip(*outs))
             if not same:
                 ctx.violation("processing-with-reloaded-settings-identical",
-                              dict(case=dict(cls=cn, kwargs=kw, pre_cls=pre_cn, pre_kwargs=pre_kw, records_seed=recs_seed, reloaded_class=type(pro2).__name__),
+                              dict(case=dict(cls=cn, kwargs=kw, pre_cls=pre_cn, pre_kwargs=pre_kw, records_seed=recs_seed, reloaded_class=type(pro2).__name__,
+                                             used_on_a_33001_sample_record_before_saving=used_before),
                                    max_abs_diff=str(max([float(np.max(np.abs(x - y))) for x, y in zip(*outs) if x.shape == y.shape] + [0.0]))),
                               seam="Settings.save/load + hvsrpy.process")
         finally:
